@@ -15,6 +15,7 @@ Everything else – every column of every other table, all of `User` otherwise
 """
 from __future__ import annotations
 
+import contextlib
 import hashlib
 import io
 import json
@@ -23,6 +24,7 @@ import shutil
 import sqlite3
 import sys
 from pathlib import Path
+from unittest import mock
 
 import appboot
 
@@ -96,6 +98,13 @@ class World:
                             password=m.User.hash_password(VICTIM[1]), groups_mask=m.Group.USER,
                             must_change=False)
             m.db.session.add(victim)
+            # cheap password hashes (bcrypt, 4 rounds) for the fixture accounts of this in-memory world:
+            # the checks log in hundreds of times; the hashing scheme is not what C15 is about
+            from dashlive.server.models.user import password_context
+            cheap = password_context.using(bcrypt__rounds=4)
+            for name, pw in list(CREDS.values()) + [VICTIM]:
+                u = victim if name == VICTIM[0] else m.User.get(username=name)
+                u.password = cheap.hash(pw)
             mps = m.MultiPeriodStream(name="c15mps", title="C15 multi-period stream")
             m.db.session.add(mps)
             period = m.Period(pid="p1", parent=mps, ordering=1, stream=bbb,
@@ -270,6 +279,34 @@ class World:
         if csrf_cookie and s.csrf_cookie:
             c.set_cookie("csrf", s.csrf_cookie, domain="localhost")
         return c
+
+
+class ClockControl:
+    """the controlled clock of a scenario: `at(seconds)` makes every `now()` the application reads
+    (datetime.datetime.now, time.time, and the `datetime` name models/token.py imported) read
+    start + seconds"""
+
+    def __init__(self, clock, start):
+        self.clock, self.start, self.offset = clock, start, 0
+
+    def at(self, seconds: int):
+        import datetime as _dt
+        self.offset = seconds
+        self.clock.set(self.start + _dt.timedelta(seconds=seconds))
+
+
+@contextlib.contextmanager
+def controlled_clock():
+    """appboot.Clock plus the one place it does not reach: models/token.py does
+    `from datetime import datetime`, so `prune_database`/`has_expired` keep the real class.
+    The start is one hour after the real time: session cookies and JWTs made when the world was
+    built stay valid (their signatures carry real timestamps), only forward offsets are used."""
+    import datetime as _dt
+    import dashlive.server.models.token as token_mod
+    start = (_dt.datetime.now(_dt.timezone.utc) + _dt.timedelta(hours=1)).replace(microsecond=0)
+    with appboot.Clock(start) as clock:
+        with mock.patch.object(token_mod, "datetime", clock._cls):
+            yield ClockControl(clock, start)
 
 
 _WORLD = None
